@@ -18,6 +18,17 @@ CLAIMS = {
         technique="TLA+ spec + TLC exhaustive enumeration, every terminal state replayed on the implementation",
         design_ref="6/C17",
     ),
+    "C19": dict(
+        engine="sequential-specs",
+        level="model_checking",
+        text="TLC enumerates specs/vmnet/Tunnel.tla over the full product of local x remote x peer x auth types (plus an unsupported "
+             "value in each position and the psk identity variants), checks the mirror invariants (nets, peers, identities, documented "
+             "counterpart, rejection, symmetry of connects) on the generated parameters, and every transition is executed on the real "
+             "VMTunnel over random concrete networks with all parameters of both sides and connects_nodes for 49 node pairs compared",
+        note="vm objects are stubs as in the selftests; for a custom left net the right side's remote net is set by the caller and modelled as absent",
+        technique="TLA+ spec + TLC exhaustive enumeration, every transition replayed on the implementation",
+        design_ref="6/C19",
+    ),
 }
 
 NOT_YET = "machinery for this property is not built yet in this revision (see DESIGN.md section 9 build order)"
